@@ -362,6 +362,10 @@ class SymFloat:
     def flatten(self):
         return SymArray(_obj1(self))
 
+    @property
+    def flat(self):
+        return _Flat(_obj1(self))          # of a NumPy scalar: a 1-element temporary, writes into it are lost
+
     def tolist(self):
         return self
 
@@ -609,7 +613,7 @@ class PyRFloat(RFloat):
             raise AttributeError(f"'float' object has no attribute '{name}'")
         return property(get)
 
-    for _n in ("ndim", "shape", "size", "dtype", "squeeze", "astype", "item", "flatten", "tolist", "sum", "max", "min", "copy", "T"):
+    for _n in ("ndim", "shape", "size", "dtype", "squeeze", "astype", "item", "flatten", "flat", "tolist", "sum", "max", "min", "copy", "T"):
         locals()[_n] = _no(_n)
     del _n, _no
 
@@ -1742,6 +1746,7 @@ class SymArray:
 
     flags = property(lambda s: s.a.flags)
     strides = property(lambda s: s.a.strides)
+    flat = property(lambda s: _Flat(s.a))
 
     def tolist(self):
         return self.a.tolist()
@@ -1804,6 +1809,26 @@ class SymArray:
 
     def __invert__(self):
         return ew(lambda a: ~tb_(a), self)
+
+
+class _Flat:
+    """ndarray.flat: a 1-D view in C (logical) order that writes through to the array"""
+
+    def __init__(self, a):
+        self.a = a
+
+    def __getitem__(self, k):
+        r = self.a.flat[_obj(k) if isinstance(k, SymArray) else k]
+        return SymArray(r) if isinstance(r, np.ndarray) else r
+
+    def __setitem__(self, k, v):
+        self.a.flat[_obj(k) if isinstance(k, SymArray) else k] = _obj(v) if isinstance(v, (SymArray, np.ndarray)) else v
+
+    def __iter__(self):
+        return iter(self.a.flat)
+
+    def __len__(self):
+        return self.a.size
 
 
 class MaskedSelection:
@@ -2356,6 +2381,7 @@ TABLE = {
     "concatenate": _np_concatenate, "stack": _np_stack, "vstack": _np_vstack, "allclose": _np_allclose, "array_equal": _np_array_equal,
     "heaviside": _lift(_np_heaviside), "copyto": _np_copyto, "reciprocal": _lift(lambda a: _div(const(1.0), tf(a))),
     "expand_dims": lambda x, axis: SymArray(np.expand_dims(_obj(x), axis)), "reshape": lambda x, shape, order="C", **k: SymArray(_obj(x).reshape(shape, order=order)),
+    "broadcast_to": lambda x, shape, **k: SymArray(np.broadcast_to(_obj(x), shape)),
     "ravel": lambda x, order="C", **k: SymArray(_obj(x).ravel(order=order)), "nonzero": _np_nonzero, "flatnonzero": _np_flatnonzero,
     "asfortranarray": lambda x, **k: SymArray(np.asfortranarray(_obj(x))), "ascontiguousarray": lambda x, **k: SymArray(np.ascontiguousarray(_obj(x))), "isneginf": _lift(lambda a: _isinf(tf(a)) & _lt(tf(a), const(0.0))),
     "isposinf": _lift(lambda a: _isinf(tf(a)) & _lt(const(0.0), tf(a))),
